@@ -16,7 +16,7 @@ theorem incallOf_aset (s : St) (i j : Nat) (v : SlotVar) :
 
 theorem Good.setS {off} {s : St} (h : InvX off s) (i : Nat) (v : SlotVar) (hv : SlotOK s.G v.slot)
     (hc : v.incall = incallOf s i) : Good off s { s with S := aset s.S i v } := by
-  refine ⟨⟨h.keys, h.lt, h.ok, h.disj, h.himpl, ?_, h.fwdC, h.noerr⟩, ⟨Nat.le_refl _, fun _ => rfl, ?_, ?_⟩⟩
+  refine ⟨⟨h.keys, h.lt, h.ok, h.disj, h.himpl, ?_, h.fwdC, h.noerr, h.own⟩, ⟨Nat.le_refl _, fun _ => rfl, ?_, ?_⟩⟩
   · intro j w hw
     simp only [aget_aset] at hw
     split at hw
@@ -29,7 +29,7 @@ theorem Good.setS {off} {s : St} (h : InvX off s) (i : Nat) (v : SlotVar) (hv : 
 
 theorem Good.delS {off} {s : St} (h : InvX off s) (i : Nat) (hc : incallOf s i = 0) :
     Good off s { s with S := adel s.S i } := by
-  refine ⟨⟨h.keys, h.lt, h.ok, h.disj, h.himpl, ?_, h.fwdC, h.noerr⟩, ⟨Nat.le_refl _, fun _ => rfl, ?_, ?_⟩⟩
+  refine ⟨⟨h.keys, h.lt, h.ok, h.disj, h.himpl, ?_, h.fwdC, h.noerr, h.own⟩, ⟨Nat.le_refl _, fun _ => rfl, ?_, ?_⟩⟩
   · intro j w hw
     simp only [aget_adel] at hw
     split at hw
@@ -164,7 +164,7 @@ theorem good_clearImpl {s : St} (h : Inv s) (i : Nat) : Good (fun _ => 0) s (cle
           · rw [e1]; exact hXok
           · intro k hk; subst hX; simp [cids] at hk
           · intro c hc; subst hX; simp at hc
-        exact this.congr ca cb cc cd (by omega)
+        exact this.congr ca cb cc cd (by omega) (by rw [← hs3]; exact nullConnsList_ownedG _ _)
       refine ⟨?_, ?_⟩
       · apply h3.setImpl' hi3 (off' := fun _ => 0)
         · subst hX
@@ -191,7 +191,7 @@ theorem good_invalidateTrackable {off} {s : St} (h : InvX off s) (t : Nat) :
   generalize hs0 : ({ s with S := amap s.S (fun v => if v.slot.tracksObj t then { v with slot := v.slot.invalidate } else v) } : St) = s0
   have h0 : Good off s s0 := by
     subst hs0
-    refine ⟨⟨h.keys, h.lt, h.ok, h.disj, h.himpl, ?_, h.fwdC, h.noerr⟩, ⟨Nat.le_refl _, fun _ => rfl, ?_, ?_⟩⟩
+    refine ⟨⟨h.keys, h.lt, h.ok, h.disj, h.himpl, ?_, h.fwdC, h.noerr, h.own⟩, ⟨Nat.le_refl _, fun _ => rfl, ?_, ?_⟩⟩
     · intro j w hw
       simp only [aget_amap] at hw
       cases hj : aget s.S j with
@@ -281,19 +281,40 @@ theorem mkFun_good {off} {s s' : St} {isVoid : Bool} {spec : FSpec} {fn : Fun} (
     · rename_i hd hg
       split at hm
       · contradiction
-      · simp at hm; obtain ⟨rfl, rfl⟩ := hm
-        refine ⟨?_, ?_, rfl⟩
-        · apply Good.setG h (GLe.aset_same (h' := { hd with everFwd := true }) hg rfl rfl rfl (fun _ => rfl))
-          intro p hp i hi
-          rcases mem_aset hp with hp | hp
-          · exact h.himpl p hp i hi
-          · subst hp; exact h.himpl (g, hd) (aget_some_mem hg) i hi
-        · intro o ts ht
-          simp [funTarget] at ht
-          obtain ⟨rfl, rfl⟩ := ht
-          refine ⟨g, { hd with everFwd := true }, by simp, rfl, ?_⟩
-          simp only
-          split <;> simp
+      · split at hm
+        · contradiction
+        · rename_i hown
+          simp at hm; obtain ⟨rfl, rfl⟩ := hm
+          have hfw : GFw s.G (aset s.G g { hd with everFwd := true }) := by
+            intro j hj hjj
+            rw [aget_aset]
+            by_cases e : j = g
+            · subst e; rw [hg] at hjj; cases hjj
+              exact ⟨{ hd with everFwd := true }, by simp, rfl, rfl, rfl, fun _ => rfl⟩
+            · simp only [e, if_false]; exact ⟨hj, hjj, rfl, rfl, rfl, id⟩
+          refine ⟨⟨?_, Frame.of_eq (Nat.le_refl _) rfl rfl⟩, ?_, rfl⟩
+          · apply h.setGFw hfw
+            · intro p hp i hi
+              rcases mem_aset hp with hp | hp
+              · exact h.himpl p hp i hi
+              · subst hp; exact h.himpl (g, hd) (aget_some_mem hg) i hi
+            · intro p hp h' hg' he
+              rw [aget_aset] at hg'
+              by_cases e : p.2 = g
+              · simp only [e, if_true] at hg'; cases hg'
+                cases htk : hd.fl.isTrackable with
+                | true => rfl
+                | false =>
+                  exfalso; apply hown
+                  simp only [htk, Bool.not_false, Bool.true_and, List.any_eq_true, decide_eq_true_eq]
+                  exact ⟨p, hp, e⟩
+              · simp only [e, if_false] at hg'; exact h.own p hp h' hg' he
+          · intro o ts ht
+            simp [funTarget] at ht
+            obtain ⟨rfl, rfl⟩ := ht
+            refine ⟨g, { hd with everFwd := true }, by simp, rfl, ?_⟩
+            simp only
+            split <;> simp
   | ownT fid t =>
     simp only [mkFun] at hm
     split at hm
@@ -308,6 +329,30 @@ theorem mkFun_good {off} {s s' : St} {isVoid : Bool} {spec : FSpec} {fn : Fun} (
     · simp at hm; obtain ⟨rfl, rfl⟩ := hm
       refine ⟨Good.of_core h rfl rfl rfl rfl (by simp), ?_, rfl⟩
       intro o ts ht; simp [funTarget] at ht
+  | ownG fid g =>
+    simp only [mkFun, St.fresh] at hm
+    split at hm
+    · contradiction
+    · rename_i hd hg
+      split at hm
+      · contradiction
+      · rename_i hpin
+        split at hm
+        · contradiction
+        · simp at hm; obtain ⟨rfl, rfl⟩ := hm
+          refine ⟨⟨?_, Frame.of_eq (by simp) rfl rfl⟩, ?_, rfl⟩
+          · have h1 : InvX off { s with next := s.next + 1 } := h.congr rfl rfl rfl rfl (by simp)
+            refine ⟨h1.keys, h1.lt, h1.ok, h1.disj, h1.himpl, h1.fwdS, h1.fwdC, h1.noerr, ?_⟩
+            intro p hp h' hg' he
+            rcases List.mem_cons.mp hp with e | e
+            · subst e
+              have hg'' : aget s.G g = some h' := hg'
+              rw [hg] at hg''; cases hg''
+              cases htk : hd.fl.isTrackable with
+              | true => rfl
+              | false => exfalso; apply hpin; simp [he, htk]
+            · exact h.own p e h' hg' he
+          · intro o ts ht; simp [funTarget] at ht
   | bad => simp [mkFun] at hm
 
 end Sigc.Emit
